@@ -21,8 +21,9 @@ import codec_ber as cb
 import codec_der as cd
 
 CORR_IMPORTS = ['Base.Prelude', 'Syntax.Asn1', 'Ber.Header', 'Ber.BerCommon', 'Ber.DerImpl', 'Ber.BerImpl', 'Ber.BerCorr',
-                'Ber.X690', 'Ber.BerScope', 'Ber.BerAcceptBase']
-SCOPE_FUEL = 24
+                'Ber.X690', 'Ber.BerScope', 'Ber.BerAcceptBase', 'Ber.BerAcceptD']
+SCOPE_FUEL = 60
+SCOPE_DEPTH = 10
 
 
 SHOW = 'Local Open Scope string_scope.\n'
@@ -202,15 +203,40 @@ def scope_checks(ctx, batch, cases, which):
         if which == 'enc':
             expr = 'scope_enc %s %s %d%%nat %s' % (num, env, SCOPE_FUEL, ty)
         else:
-            expr = '(in_scope %s %s %d%%nat %s && compiles %s %d%%nat %s)' % (num, env, SCOPE_FUEL, ty, env, SCOPE_FUEL, ty)
+            expr = '(in_scope %s %s %d%%nat %s && compilesD %s %d%%nat %d%%nat %s)' % (
+                num, env, SCOPE_FUEL, ty, env, SCOPE_DEPTH, SCOPE_FUEL, ty)
         ctx.count('scope:checked')
         batch.add(c, expr, expr, lambda mv, c=c: 'type %s of %s' % (c.tname, c.text[:400]), soft='scope:outside-coq-scope')
+
+
+def tlv_spans(data):
+    """(start, end) of the TLVs directly inside the outermost constructed definite-length TLV"""
+    try:
+        root, end = cb.parse_strict(data, der=False)
+    except (cb.TlvError, IndexError):
+        return []
+    if not root.constructed or not root.children:
+        return []
+    out = []
+    # recompute the positions by re-serialising the children in DER form only when the input is DER
+    try:
+        body = b''.join(cb.write_der(k) for k in root.children)
+    except Exception:  # noqa
+        return []
+    pos = data.find(body)
+    if pos < 0:
+        return []
+    for k in root.children:
+        n = len(cb.write_der(k))
+        out.append((pos, pos + n))
+        pos += n
+    return out
 
 
 def mutate(rng, data):
     """one malformed relative of an encoding"""
     b = bytearray(data)
-    kind = rng.choice(['flip', 'truncate', 'insert', 'length', 'tag', 'delete', 'splice', 'indef', 'random'])
+    kind = rng.choice(['flip', 'truncate', 'insert', 'length', 'tag', 'delete', 'splice', 'indef', 'random', 'dup', 'dup'])
     if kind == 'flip' and b:
         i = rng.randrange(len(b))
         b[i] ^= 1 << rng.randrange(8)
@@ -231,6 +257,15 @@ def mutate(rng, data):
     elif kind == 'splice' and len(b) > 2:
         i, j = sorted(rng.randrange(len(b)) for _ in range(2))
         b = b[:i] + b[j:] + b[i:j]
+    elif kind == 'dup' and len(b) > 4:
+        # duplicate one inner TLV (a repeated component / element)
+        spans = tlv_spans(bytes(b))
+        if spans:
+            i, j = rng.choice(spans)
+            b = b[:j] + b[i:j] + b[j:]
+            # keep a short-form outer length consistent so that the duplicate is inside the contents
+            if len(b) > 1 and b[1] < 0x7f and b[1] + (j - i) < 0x80 and not (b[0] & 0x1f == 0x1f):
+                b[1] += j - i
     elif kind == 'indef' and len(b) > 1:
         i = rng.randrange(1, len(b))
         b[i] = 0x80
